@@ -33,7 +33,8 @@ CMP = ("Eq", "NotEq", "Lt", "LtE", "Gt", "GtE")
 ALL_OPS = ARITH + ("Pow", "BitAnd") + CMP
 
 # concrete text pool for arithmetic coercion (text->number parsing realises symbolic text)
-TEXT_POOL = (("1", 1), ("-2", -2), ("1.5", 1.5), ("07", 7), ("a", None), ("1a", None), (" ", None))
+TEXT_POOL = (("1", 1), ("-2", -2), ("1.5", 1.5), ("07", 7), ("a", None), ("1a", None), (" ", None),
+             ("TRUE ", None), (" false", None), ("\ttrue\n", None))  # padded logical words are ordinary text
 
 
 # ---------------------------------------------------------------- totality / type
@@ -369,7 +370,7 @@ def obligations(tier):
         if op != "Div":
             add(f"arith_coerce[{op}]", "ob_arith_coerce", (op,), 90, group="arith")
         for ti in range(len(TEXT_POOL)):
-            if tier == "quick" and ti not in (0, 2, 4):
+            if tier == "quick" and ti not in (0, 2, 4, 7):
                 continue
             for left in (True, False):
                 add(f"arith_text[{op},{TEXT_POOL[ti][0]!r},{'L' if left else 'R'}]", "ob_arith_text",
